@@ -61,8 +61,9 @@ def h_bytes_rt(eng, case):
         for c in name:
             lst = blist(c)
             t, ts, _ = ref.rd_num(lst, 0, len(lst))
+            ln, ls, _ = ref.rd_num(lst, ts, len(lst))
             eng.check(Component.get_type(c) == t, 'component-accessors')
-            eng.check(beq(Component.get_value(c), lst[ts + 1:]), 'component-accessors')
+            eng.check(beq(Component.get_value(c), lst[ts + ls:]), 'component-accessors')
     except Exception as e:
         eng.fail('no-exception', exc_sig(e), repr(e)[:200])
         return
@@ -335,6 +336,8 @@ def cases(tier, seed):
     cs = []
     alpha = [(1, 0), (1, 1), (1, 3), (3, 2)]
     for sh in _shapes(3 if quick else 4, alpha):
+        cs.append(('bytes_rt', {'shape': sh}))
+    for sh in ([['L', 260]], [[1, 1], ['L', 248]], [['L', 251], [1, 1]], [[1, 2], ['L', 300], [3, 1]], [['L', 252]], [['L', 253]]):
         cs.append(('bytes_rt', {'shape': sh}))
     small = [(1, 0), (1, 2), (3, 1)]
     for a in _shapes(2, small):
